@@ -8,8 +8,31 @@ from . import e1
 from .common import ncpu, seed
 
 
+class _Guard:
+    """Turns an unexpected exception inside a worker into a reported violation instead of a harness crash:
+    on the unchanged tree the workers do not raise, so anything that escapes is behaviour the oracle did not
+    anticipate from the code under test."""
+
+    def __init__(self, fn, prop):
+        self.fn, self.prop = fn, prop
+
+    def __call__(self, item):
+        try:
+            return self.fn(item)
+        except Exception as e:  # noqa: BLE001
+            import traceback
+
+            tb = traceback.extract_tb(e.__traceback__)
+            where = next((f"{os.path.basename(fr.filename)}:{fr.name}" for fr in reversed(tb) if "/fickling/" in fr.filename), "harness")
+            o = e1.Out()
+            o.violate(self.prop, f"{self.prop}|unexpected-exception|{type(e).__name__}|{where}",
+                      f"{type(e).__name__}: {e} at {where} while checking {repr(item)[:200]}", {"engine": "E3", "item": repr(item)[:2000]}, 0)
+            return o
+
+
 def pmap(fn, items, rep, chunksize=8, procs=None, ordered=False):
     """Run fn(item) -> e1.Out for every item; merge stats/violations into rep. Returns merged Out."""
+    fn = _Guard(fn, rep.prop)
     items = list(items)
     s = seed() % max(1, len(items))
     items = items[s:] + items[:s]  # seed rotates dispatch order only
